@@ -12,7 +12,9 @@ adding a new piece of hidden state does).
 
 kinds
   mutable-default   a parameter default that is evaluated once and is (or may be) a mutable object:
-                    list/dict/set literal or comprehension, or any call except the immutable builtins
+                    list/dict/set literal or comprehension, or any call except the immutable builtins; the detail ends with what
+                    the function does with the parameter: `-> self.x: as is` (every object built with the default holds the ONE
+                    default object) / `slice copy` / `copy` / `derived value` / `not stored in an attribute`
   class-mutable     a class-level binding to a container literal / comprehension / call result
                     (tables, shared calculator singletons, token tables)
   enum-call-value   an Enum member whose value is a call result (e.g. a configuration object)
@@ -330,18 +332,19 @@ class ModuleScan:
         for d in fn.decorator_list:
             self.ambient_reads(d, q + ".<decorator>", at_import=True)
 
-        # defaults
+        # defaults (the rows are added further down, with what the function does with the parameter: `mutable_defaults`)
+        mutable_defaults = []
         pos = args.posonlyargs + args.args
         for a, d in zip(pos[len(pos) - len(args.defaults):], args.defaults):
             k = value_kind(d)
             if k:
-                self.add(q, "mutable-default", f"{a.arg} = {short(d)} [{k}]")
+                mutable_defaults.append((a.arg, f"{a.arg} = {short(d)} [{k}]"))
             self.ambient_reads(d, q + ".<default>", at_import=True)
         for a, d in zip(args.kwonlyargs, args.kw_defaults):
             if d is not None:
                 k = value_kind(d)
                 if k:
-                    self.add(q, "mutable-default", f"{a.arg} = {short(d)} [{k}]")
+                    mutable_defaults.append((a.arg, f"{a.arg} = {short(d)} [{k}]"))
                 self.ambient_reads(d, q + ".<default>", at_import=True)
 
         # nested defs are scanned as their own functions (closures over parameters are rare here)
@@ -669,6 +672,44 @@ class ModuleScan:
         for p in sorted(handed_back):
             self.add(q, "returns-argument", p + (" [parameter is also rebound in the function]" if p in rebound else ""))
             self.returns.setdefault(fn.name, set()).add((free_params.index(p), p))
+
+        # ---- mutable-default: what becomes of the (shared) default object - bound to an attribute AS IS (every object built with
+        # the default then holds the one default object), as a slice / copy / other derived value, or not stored at all.  Part of the
+        # row: turning `self.x = p[0:2]` into `self.x = p` changes the inventory although no new piece of state appears.
+        COPY_CALLS = {"copy", "deepcopy", "copy.copy", "copy.deepcopy", "bitarray", "bytearray", "list", "dict", "set", "bytes", "tuple", "frozenbitarray"}
+
+        def how_stored(pname):
+            uses = set()
+            for node in own_nodes:
+                tgts, val = [], None
+                if isinstance(node, ast.Assign):
+                    tgts, val = node.targets, node.value
+                elif isinstance(node, ast.AnnAssign) and node.value is not None:
+                    tgts, val = [node.target], node.value
+                elif isinstance(node, ast.Call) and isinstance(node.func, ast.Name) and node.func.id == "setattr" and len(node.args) >= 3:
+                    tgts, val = [node.args[0]], node.args[2]
+                if val is None:
+                    continue
+                for tg in tgts:
+                    if not isinstance(tg, (ast.Attribute, ast.Subscript)) and not (isinstance(node, ast.Call)):
+                        continue
+                    if isinstance(tg, ast.Subscript) and not isinstance(tg.value, ast.Attribute):
+                        continue
+                    where = short(tg, 40)
+                    if direct(val) == pname:
+                        uses.add(f"{where}: as is")
+                    elif any(isinstance(n, ast.Name) and alias.get(n.id) == pname for n in ast.walk(val)):
+                        v = val
+                        if isinstance(v, ast.Subscript) and isinstance(v.slice, ast.Slice) and direct(v.value) == pname:
+                            uses.add(f"{where}: slice copy")
+                        elif isinstance(v, ast.Call) and ((dotted(v.func) or "") in COPY_CALLS or (isinstance(v.func, ast.Attribute) and v.func.attr in ("copy", "__copy__", "__deepcopy__") and direct(v.func.value) == pname)):
+                            uses.add(f"{where}: copy")
+                        else:
+                            uses.add(f"{where}: derived value")
+            return "; ".join(sorted(uses)) if uses else "not stored in an attribute"
+
+        for pname, detail in mutable_defaults:
+            self.add(q, "mutable-default", f"{detail} -> {how_stored(pname)}")
 
         for node in fn.body:
             self.ambient_reads(node, q, skip_defs=True)
